@@ -14,6 +14,12 @@
     A schedule is a list of stream ids; each occurrence gives that stream's task its next block.
     The only state the tasks share is the host's response cache (and the handlers' own state).
 
+    Third part: ONE connection and a HISTORY of requests that carry bodies ([conn_loop]): on HTTP/1 the next
+    request starts where the declared body of this one ends — the handler reads all, part or nothing of it, the
+    repaired loop (fix dfe4d54, [Http1Body::drain]) discards the rest; [drain = false] is the loop before that
+    repair.  On HTTP/2 every request is its own stream.  [utils::get_body_length_request] decides which methods
+    have a declared body at all.
+
     Not modelled (behaviour of the h2 / rustls crates): HPACK, flow control, frame scheduling, TLS
     records, ALPN negotiation itself.  [h2_refuses] transcribes the one check of the h2 crate that
     decides whether a response head is sent at all (h2 0.4 proto/streams/send.rs [check_headers]);
